@@ -1,0 +1,38 @@
+//go:build verif
+
+// Copyright Istio Authors
+//
+// Licensed under the Apache License, Version 2.0 (the "License");
+// you may not use this file except in compliance with the License.
+// You may obtain a copy of the License at
+//
+//     http://www.apache.org/licenses/LICENSE-2.0
+//
+// Unless required by applicable law or agreed to in writing, software
+// distributed under the License is distributed on an "AS IS" BASIS,
+// WITHOUT WARRANTIES OR CONDITIONS OF ANY KIND, either express or implied.
+// See the License for the specific language governing permissions and
+// limitations under the License.
+
+package slices
+
+import "istio.io/istio/pkg/verif"
+
+// Map applies a pure function element-wise (the contract is proved for pure f; wherever it is used
+// the closure handed over is checked not to write memory).
+//
+//verif:contract Map
+//verif:prop C03
+//verif:pure-func-params
+func ctMap[E any, O any](s []E, f func(E) O) {
+	r := Map(s, f)
+	verif.Ensures("fresh", verif.Fresh(r))
+	verif.Ensures("same-length", len(r) == len(s))
+	verif.Ensures("element-wise", verif.Forall(func(i int) bool { return !(0 <= i && i < len(s)) || verif.Same(r[i], f(s[i])) }))
+}
+
+//verif:invariant Map 1
+func invMap[E any, O any](s []E, f func(E) O, n []O, rangeindex int) bool {
+	return verif.Fresh(n) && rangeindex < len(s) && len(n) == rangeindex+1 &&
+		verif.Forall(func(i int) bool { return !(0 <= i && i < len(n)) || verif.Same(n[i], f(s[i])) })
+}
